@@ -60,6 +60,14 @@ def check(run):
         # the loss of the empty coalition that the chain starts from is the value reported as marginal loss
         chain_start(sg, "C0", init)
         mpts = [f for f in sg.fields.get("TRACKER", []) if f not in (sg.IT, sg.VT, sg.MLT, sg.MoLT)]
+        if len(mpts) > 1:
+            # further tracker-valued fields (a template the others are copied from, ...): the prediction tracker is the
+            # one this method works on
+            used = {t[3][0][1] for ev, _ in walk(s.events) for v in (getattr(ev, "value", None), getattr(ev, "res", None))
+                    if v is not None for t in ir.subterms(v)
+                    if t[0] == "new" and t[2] == "deepcopy" and len(t[3]) == 1 and t[3][0][0] == "field0"}
+            used |= {ev.field for ev, _ in walk(s.events) if isinstance(ev, ir.Store)}
+            mpts = [f for f in mpts if f in used] or mpts
         run.need(len(mpts) == 1, f"marginal prediction tracker not identified: {mpts}")
         MPT = mpts[0]
         okc = init[0] == "res" and init[2] == f"self.{sg.lf}" and len(init[3]) == 2 and init[3][0] == sg.y and not init[4]
